@@ -117,6 +117,11 @@ std::chrono::seconds sanitize_announce_interval(std::chrono::seconds value) {
     if (value < kMinAnnounceInterval) {
         return kMinAnnounceInterval;
     }
+    // The burst window is raised to the interval, and both are converted to nanoseconds when
+    // compared with steady-clock times: keep the interval inside the allowed window range.
+    if (value > kMaxAnnounceWindow) {
+        return kMaxAnnounceWindow;
+    }
     return value;
 }
 
